@@ -69,6 +69,8 @@ SHORT_PROGRAMS = [
     "lda  #  1  +  2\nLDA #$FF\nLdA #%1010\nsta $D020 , X",
     "nop\r\nnop\r\n  lda #1\r\n",
     "lda #!0\nlda #-1\nlda #!-1\nlda #<$1234\nlda #>$1234",
+    "lda #! -1\r\n.if !/* not */-foo { nop }\r\nfoo: lda #! /* a */ - /* b */ foo\r\n",
+    ".byte $ ff, % 101, $/* hi */12\r\nlda # $ 10\r\n",
     "beq *\nbne * + 2\njmp *",
     ".file \"nonexistent.bin\"",
     "lbl:\nlbl2: nop\n  lbl3:   nop",
